@@ -163,7 +163,8 @@ def enumerate_case(case, mode, errnos, rep, tier, rng):
     targets = allc if tier == "thorough" else folded
     if tier != "thorough" and len(targets) > 34:
         labels = [step_label(sb, c, oroot, v) for c in targets]
-        keep = [i for i, l in enumerate(labels) if l not in ("staging", "other")]
+        # always: the install steps, and every call on an inventory or sidecar (also the staged ones)
+        keep = [i for i, l in enumerate(labels) if l not in ("staging", "other") or any(os.path.basename(p).startswith("inventory") for p in targets[i].paths)]
         rest = [i for i in range(len(targets)) if i not in keep]
         keep += rng.sample(rest, min(len(rest), 34 - len(keep))) if len(keep) < 34 else []
         targets = [targets[i] for i in sorted(keep)]
@@ -289,6 +290,20 @@ def judge_kill(sb, case, obs):
         r = sb.run(["validate", case.oid])
         if r["rc"] != 2:
             fails.append("%s: the object differs from the old and the new state but `validate` exits %d" % (what, r["rc"]))
+    # the same commit run again once the dead process' lock is gone: if it reports success, what it leaves is the
+    # complete new version (every version directory with its own inventory) - not something in between that validates
+    if obs["cls"] in ("old", "other"):
+        locks = os.path.join(sb.staging, "extensions", "rocfl-locks")
+        if os.path.isdir(locks):
+            for f in os.listdir(locks):
+                os.unlink(os.path.join(locks, f))
+        r = sb.run(case.args)
+        if r["rc"] == 0:
+            from vlib import ocflcheck
+            oroot = object_root(sb, case.oid)
+            probs = ocflcheck.check_object(os.path.join(sb.root, oroot), strict=True, fixity=True) if oroot else ["the object is not in the repository"]
+            if probs:
+                fails.append("%s: the commit run again afterwards reports success but leaves %s" % (what, probs[:2]))
     return fails
 
 
